@@ -133,10 +133,15 @@ pub fn get_opcode_bytes(
         }
     };
 
+    // A negative operand is the two's complement of an address in the top of memory, which is not in the zero page.
+    // Where there is only a one-byte form (e.g. immediate) it is the byte it looks like.
+    let has_absolute_form = possible_opcodes.iter().any(|(_, len)| *len == 2);
     for (opcode, operand_length) in possible_opcodes {
         match operand_length {
             0 => return Ok(v![opcode]),
-            1 if operand < 256 => return Ok(v![opcode, operand as u8]),
+            1 if operand < 256 && (operand >= 0 || !has_absolute_form) => {
+                return Ok(v![opcode, operand as u8])
+            }
             2 => {
                 let val = (operand as u16).to_le_bytes();
                 return Ok(v![opcode, val[0], val[1]]);
